@@ -160,7 +160,7 @@ fn parse_type(spelling: &str) -> Option<pt::Expression> {
 }
 
 /// Build one file holding `seqs.len()` structs (or contracts) and check the detector on each.
-fn check_detector_file(seqs: &[Vec<u16>], as_contract: bool, nested: bool, rng: &mut Rng, acc: &mut Acc) {
+fn check_detector_file(seqs: &[Vec<u16>], as_contract: bool, nested: bool, rng: &Rng, acc: &mut Acc) {
     let mut text = String::from("pragma solidity 0.8.17;\n");
     let mut starts: Vec<usize> = vec![];
     if !as_contract && nested {
